@@ -13,6 +13,7 @@ import EinoV.Proofs.C02Eager
 import EinoV.Proofs.C02Just
 import EinoV.Proofs.C02Complete
 import EinoV.Proofs.C02Exact
+import EinoV.Proofs.C02EagerComplete
 import EinoV.Gen.FactsC02
 import EinoV.Expected.C02
 import EinoV.Proofs.C02Workflow
@@ -402,6 +403,28 @@ theorem workflow_starts_are_justified {V} (ops : ValOps V) (r : Runner V) (wf : 
     (∀ v, (runEager ops r pick x).result = .ok v →
       Justified ops r (histOf r x (runEager ops r pick x).batches.reverse) END v) :=
   runEager_justified ops r wf pick x
+
+open EinoV.Engine.DagRun in
+/-- **workflow_enabled_nodes_are_submitted** (completeness for the eager loop of Workflows).
+    `EReach` are the states `runEager` passes through (`Spec/DagStatus.lean`); `histC` the
+    completions processed so far.  Under `DagWF` and `DagWF2`, for every completion order `pick`:
+    in every such state, every node enabled by the processed completions has been submitted. -/
+theorem workflow_enabled_nodes_are_submitted {V} (ops : ValOps V) (r : Runner V) (wf : DagWF r) (wf2 : DagWF2 r)
+    (pick : Pick V) (x : V) (cm : Chans V) (running : List (Key × V)) (bs : List (List (Key × V))) (comp : List Key)
+    (h : EReach ops r pick x cm running bs comp) :
+    ∀ n, Enabled r (histC r x bs comp) n → n ∈ bs.flatten.map (·.1) :=
+  ereach_complete ops r wf wf2 pick x cm running bs comp h
+
+open EinoV.Engine.DagRun in
+/-- **workflow_run_complete.** On the outcome of `runEager`: when the run stops (result, error, or
+    nothing left to run), every node enabled by the completions it had processed — all collected
+    tasks, except possibly the last one, at which it stopped — is among the submitted tasks. -/
+theorem workflow_run_complete {V} (ops : ValOps V) (r : Runner V) (wf : DagWF r) (wf2 : DagWF2 r) (pick : Pick V) (x : V) :
+    ∃ comp', ((runEager ops r pick x).completed = comp' ∨ ∃ k, (runEager ops r pick x).completed = comp' ++ [k]) ∧
+      ((runEager ops r pick x).batches = [] ∨
+       ∀ n, Enabled r (histC r x (runEager ops r pick x).batches comp') n →
+         n ∈ (runEager ops r pick x).submitted.map (·.1)) :=
+  runEager_complete ops r wf wf2 pick x
 
 open EinoV.Engine.DagRun in
 /-- **compiled_workflow_declares_predecessors.** Every compiled Workflow lists each node as a
